@@ -27,13 +27,17 @@ TRIG = [("notar_vote", "a notar vote arrives last"), ("skip_vote", "a skip vote 
 _pc = importlib.util.spec_from_file_location("pool_common", os.path.join(os.path.dirname(os.path.dirname(os.path.abspath(__file__))), "pool_common.py")); PC = importlib.util.module_from_spec(_pc); _pc.loader.exec_module(PC)
 POOL_BUILD = {"overlays": PC.OVERLAYS + [{"src": "C06/kani_c06_cut.rs", "dest": "src/consensus/pool/slot_state/kani_c06_cut.rs", "decl_in": SS, "decl": "pub(crate) mod kani_c06_cut;"},
                                          {"src": "C06/kani_c06_pool.rs", "dest": "src/consensus/pool/kani_c06_pool.rs", "decl_in": PC.POOL, "decl": "mod kani_c06_pool;"}],
-              "redirects": PC.REDIRECTS, "coll_cap": 4}
-POOL_TIERS = {}
+              # std Vec in pool.rs (the list of blocks waiting for one parent) -> typed contiguous stand-in: the length and the
+              # elements of a std Vec behind its untyped heap block are symbolic to CBMC, the wake-up loop is then unrolled
+              # to the unwind bound with a symbolic child slot each time (measured: > 16 min of symbolic execution)
+              "redirects": [{"file": PC.POOL, "pattern": r"^use std::ops::RangeBounds;$", "replacement": "use std::ops::RangeBounds;\n#[cfg(kani)]\nuse crate::verif_coll::tvec::{Vec, vec};", "count": 1, "required": True}] + PC.REDIRECTS, "coll_cap": 4}
+POOL_TIERS = {}  # filled below once a harness has been observed to pass on the unchanged tree
+S2S_TIERS = {}
 def _wake(n, d):
     return {"name": n, "path": "consensus::pool::kani_c06_pool", "tiers": POOL_TIERS.get(n, T if os.environ.get("VERIF_EXPERIMENTAL") else []), "role": "pool hand-over/parent certificate and child block, " + d, "build": POOL_BUILD, "covers": 1,
-            "stubs": [PC.SIGN_STUB, "log::max_level", "consensus::pool::PoolImpl::send_votor_event", "consensus::pool::PoolImpl::send_repair", "consensus::pool::PoolImpl::handle_finalization",
-                      "ParentReadyTracker::mark_notar_fallback", "ParentReadyTracker::handle_finalization"], "timeout": {"quick": 900, "thorough": 1800}, "mem_gb": 14, "cbmc_args": PC.CBMC,
-            "functions": ["PoolImpl::{add_block,add_cert,add_valid_cert,slot_state}", "SlotState::{notify_parent_known,notify_parent_certified,check_safe_to_notar,add_cert,is_notar_fallback_or_stronger}", "FinalityTracker::{add_parent,mark_notarized,mark_fast_finalized}"],
+            "stubs": [PC.SIGN_STUB, "log::max_level", "consensus::pool::PoolImpl::send_votor_event", "consensus::pool::PoolImpl::send_repair", "consensus::pool::PoolImpl::send_parent_ready_events", "consensus::pool::slot_state::SlotState::notify_parent_certified", "consensus::pool::PoolImpl::handle_finalization",
+                      "ParentReadyTracker::mark_notar_fallback", "ParentReadyTracker::handle_finalization"], "timeout": {"quick": 900, "thorough": 1800}, "mem_gb": 24, "cbmc_args": PC.CBMC,
+            "functions": ["PoolImpl::{add_block,add_cert,add_valid_cert,slot_state}", "SlotState::{notify_parent_known,add_cert,is_notar_fallback_or_stronger}", "FinalityTracker::{add_parent,mark_notarized,mark_fast_finalized}"],
             "bounds": "fresh pool, 2 validators; parent block in slot 1, child block(s) in slot 2 (and 3); " + d + "; concrete scenario per harness (the finite shape space kind x order x number of children is enumerated)"}
 WAKE = [("c06_pool_wake_notar_one", "one block waits; the parent's notarization certificate arrives (one add_cert)"), ("c06_pool_wake_nfallback_one", "one block waits; the parent's notar-fallback certificate arrives"),
         ("c06_pool_wake_fastfinal_one", "one block waits; the parent's fast-finalization certificate arrives"), ("c06_pool_wake_notar_two", "two blocks (slots 2, 3) wait for the same parent; its notarization certificate arrives"),
@@ -42,7 +46,7 @@ WAKE = [("c06_pool_wake_notar_one", "one block waits; the parent's notarization 
         ("c06_pool_block_nfallback", "a block arrives after the parent's notar-fallback certificate"), ("c06_pool_block_fastfinal", "a block arrives after the parent's fast-finalization certificate")]
 SPEC = {
     "property": "C06",
-    "level_text": "Registered: the safe-to-notar DECISION KERNEL only - one call of the real SlotState::check_safe_to_notar on an arbitrary state (3 validators, symbolic stakes, who holds what, parent status, own votes, pending flag): it answers SafeToNotar exactly under the condition of the property statement (own voted but not for this block; 40%, or 20% with 60% including skip; parent certified), asks for repair exactly when only the block is missing, and keeps the signalled / pending bookkeeping consistent (a block that only waits for a skip vote or the own vote is pending). NOT covered by the solver: that every trigger re-evaluates (the as-soon-as half) and the safe-to-skip condition - the harnesses for them (below) exist but one add_vote with the re-evaluation loops exceeds the caps; the defect of that half (own notar vote last) was found and fixed via a native test, not by the solver. Original plan, kept for the record: bounded symbolic verification of the real safe-to-notar / safe-to-skip logic as an inductive step: 3 validators with arbitrary 16-bit stakes, each holding notar(A), notar(B), skip or nothing (symbolic), parent status of both blocks symbolic, bookkeeping consistent with the invariant 'signalled <=> condition holds, and a block that only waits for a skip vote or the own vote is pending'. For each possible last-arriving ingredient (another validator's notar vote, a skip vote, the node's own notar(A) / notar(B) / skip vote, the parent's certificate) the solver shows that the events returned are exactly the conditions of the property statement that became true in this step (never early, never twice, never missing) and that the invariant holds again - which extends the claim to histories of any length within the bound.",
+    "level_text": "PARTIAL claim. (1) The safe-to-notar DECISION KERNEL - one call of the real SlotState::check_safe_to_notar on an arbitrary state (3 validators, symbolic stakes, who holds what, parent status, own votes, pending flag): it answers SafeToNotar exactly under the condition of the property statement (own voted but not for this block; 40%, or 20% with 60% including skip - skip-fallback stake never counted; parent certified), asks for repair exactly when only the block is missing, and keeps the signalled / pending bookkeeping consistent (a block that only waits for a skip vote or the own vote is pending). (2) The POOL HAND-OVER of the parent's certificate (c06_pool_*): a block registered by the real PoolImpl::add_block before its parent is certified waits for the parent's certificate - also when another block already waits for the same parent, none is dropped - and one registered after the certificate is told at once, for a notarization, notar-fallback or fast-finalization certificate; when the real PoolImpl::add_cert / add_valid_cert then stores the parent's certificate (each of the three kinds), EVERY waiting block's slot state is told that its parent is certified (the call that evaluates and raises safe-to-notar). Two genuine defects of this hand-over were found and repaired (fast-finalization certificate never woke the child; one waiting block per parent). NOT covered by the solver: that every VOTE trigger re-evaluates (the as-soon-as half for votes) and the safe-to-skip condition - the step harnesses and two decoupled-counter kernels exist in kani_c06.rs but exceed the memory cap (DESIGN.md section 9); the defect of that half (own notar vote last) was found and fixed via a native test, not by the solver.",
     "level_note": "Bounds: 3 validators, 2 competing blocks, one slot, one trigger from an arbitrary invariant pre-state. All certificates are pre-installed (so the trigger creates none: creation is C03). The pool-level hand-off (add_block / add_valid_cert calling notify_parent_certified, s2n_waiting_parent_cert) is outside. BLS signing stubbed; container stand-ins under Kani. Trusts Kani, CBMC, CaDiCaL.",
     "overlays": [COLL, FIX, AGG, CERT, SLOTFIX, {"src": "C06/kani_c06.rs", "dest": "src/consensus/pool/slot_state/kani_c06.rs", "decl_in": SS, "decl": "mod kani_c06;"}],
     "redirects": SLOT_STATE_REDIRECTS,
@@ -61,6 +65,13 @@ SPEC = {
          "functions": ["SlotState::add_vote", "SlotState::count_skip_stake", "SlotState::count_notar_stake"], "bounds": "3 validators with symbolic 16-bit stakes; validator 0 casts its first vote (" + d + "), the two others hold notar(A) | notar(B) | skip | nothing; no block reaches 20% (pending set empty)"}
         for (n, d) in [("c06_kernel_s2s_skipvote", "a skip vote"), ("c06_kernel_s2s_ownskip", "the node's own skip vote"), ("c06_kernel_s2s_ownnotar", "the node's own notar vote"), ("c06_kernel_s2s_sfvote", "a skip-fallback vote")]
     ] + [_wake(n, d) for (n, d) in WAKE] + [
+        {"name": n, "path": MOD, "tiers": S2S_TIERS.get(n, T if os.environ.get("VERIF_EXPERIMENTAL") else []), "role": "safe-to-skip threshold kernel/" + d, "stubs": STUBS + ["consensus::pool::slot_state::SlotState::check_safe_to_notar"], "covers": 2, "timeout": {"quick": 600, "thorough": 1500}, "mem_gb": 14,
+         "functions": ["SlotState::add_vote", "SlotState::count_skip_stake", "SlotState::count_notar_stake"],
+         "bounds": "2 validators; total stake, the voter's stake and the skip / skip-fallback / notar(A) / notar(B) counters arbitrary 16-bit values consistent with one another (decoupled from the stored votes: only the node's own notar vote and the new vote are stored); " + d + "; nothing pending for safe-to-notar, every certificate present"}
+        for (n, d) in [("c06_s2s_skip_own1", "a skip vote arrives, the node holds a notar vote"), ("c06_s2s_notar_own1", "a notar vote arrives, the node holds a notar vote for the other block"),
+                       ("c06_s2s_notar_own2", "the node's own notar vote arrives"), ("c06_s2s_sfallback_own1", "a skip-fallback vote arrives (must never count), the node holds a notar vote"),
+                       ("c06_s2s_skip_own0", "a skip vote arrives, the node has not notarized anything")]
+    ] + [
         # Safe-to-skip step harnesses were tried again late in the session (C03's step harness with the safe-to-skip
         # bookkeeping left open: 2.2 M symex steps, memory cap - a PoolEvent pushed under a symbolic guard makes CBMC
         # explore the drop glue of every PoolEvent variant) and are not registered: the seeded change C06-m2 is missed.
